@@ -24,6 +24,19 @@ impl DepthFirstNumber {
 }
 #[derive(Clone, Copy)]
 pub struct StackDepth { pub depth: usize }
+impl vstd::std_specs::cmp::PartialEqSpecImpl for DepthFirstNumber {
+    open spec fn obeys_eq_spec() -> bool { true }
+    open spec fn eq_spec(&self, other: &Self) -> bool { self.index == other.index }
+}
+impl PartialEq for DepthFirstNumber { #[verifier::external_body] fn eq(&self, other: &Self) -> bool { unimplemented!() } }
+// `#[derive(PartialOrd, Ord)]` on DepthFirstNumber { index }: the order of the index
+impl vstd::std_specs::cmp::PartialOrdSpecImpl for DepthFirstNumber {
+    open spec fn obeys_partial_cmp_spec() -> bool { true }
+    open spec fn partial_cmp_spec(&self, other: &Self) -> Option<core::cmp::Ordering> {
+        if self.index < other.index { Some(core::cmp::Ordering::Less) } else if self.index == other.index { Some(core::cmp::Ordering::Equal) } else { Some(core::cmp::Ordering::Greater) }
+    }
+}
+impl PartialOrd for DepthFirstNumber { #[verifier::external_body] fn partial_cmp(&self, other: &Self) -> Option<core::cmp::Ordering> { unimplemented!() } }
 // `impl Add<usize> for DepthFirstNumber` (search_graph.rs): index + v
 impl core::ops::Add<usize> for DepthFirstNumber {
     type Output = DepthFirstNumber;
@@ -60,6 +73,8 @@ pub struct Iteration<K, V> {
     pub minimums: Minimums,
     /// the cycle flags of the stack when the iteration returned
     pub flags_after: Seq<bool>,
+    /// how many batches of nodes had been moved to the permanent cache when the iteration returned
+    pub moved_after: nat,
 }
 
 #[verifier::external_body]
@@ -71,12 +86,14 @@ impl<K, V> SearchGraph<K, V> {
     pub uninterp spec fn spec_lookup(&self, goal: K) -> Option<DepthFirstNumber>;
     /// GHOST: the iterations run so far on this graph, oldest first
     pub uninterp spec fn history(&self) -> Seq<Iteration<K, V>>;
+    /// GHOST: how many times `move_to_cache` made nodes of this graph permanent
+    pub uninterp spec fn moved(&self) -> nat;
     /// search_graph.rs: truncates `nodes` to `dfn` and forgets the goals of the removed nodes
     #[verifier::external_body]
     pub fn rollback_to(&mut self, dfn: DepthFirstNumber)
         ensures
             final(self).nodes() == old(self).nodes().take(dfn.index as int),
-            final(self).history() == old(self).history(),
+            final(self).history() == old(self).history(), final(self).moved() == old(self).moved(),
             forall|g: K| (#[trigger] old(self).spec_lookup(g)) matches Some(d) && d.index < dfn.index ==> final(self).spec_lookup(g) == old(self).spec_lookup(g),
     { unimplemented!() }
 }
@@ -95,7 +112,7 @@ impl<K, V> core::ops::IndexMut<DepthFirstNumber> for SearchGraph<K, V> {
         ensures
             *r == old(self).nodes()[i.index as int],
             final(self).nodes() == old(self).nodes().update(i.index as int, *final(r)),
-            final(self).history() == old(self).history(),
+            final(self).history() == old(self).history(), final(self).moved() == old(self).moved(),
             forall|g: K| final(self).spec_lookup(g) == old(self).spec_lookup(g),
     { unimplemented!() }
 }
@@ -162,7 +179,7 @@ pub trait SolverStuff<K, V>: Copy where K: Hash + Eq + Debug + Clone, V: Debug +
             final(context).graph().history().len() > 0,
             final(context).graph().history().last() == (Iteration {
                 goal: *goal, assumed: node_of(old(context).graph(), *goal).solution, produced: r,
-                minimums: *final(minimums), flags_after: final(context).stk().flags() }),
+                minimums: *final(minimums), flags_after: final(context).stk().flags(), moved_after: final(context).graph().moved() }),
             final(context).graph().spec_lookup(*goal) == old(context).graph().spec_lookup(*goal),
             final(context).graph().nodes().len() > old(context).graph().spec_lookup(*goal)->0.index,
             node_of(final(context).graph(), *goal) == node_of(old(context).graph(), *goal),
@@ -202,6 +219,10 @@ impl<K, V> RecursiveContext<K, V> where K: Hash + Eq + Debug + Clone, V: Debug +
         r == final(self).graph().history().last().minimums,
         // the goal is still where it was
         final(self).graph().spec_lookup(*canonical_goal) == Some(dfn),
+        (dfn.index as int) < final(self).graph().nodes().len(),
+        final(self).graph().nodes()[dfn.index as int].goal == old(self).graph().nodes()[dfn.index as int].goal,
+        // nothing was made permanent after the last iteration returned
+        final(self).graph().moved() == final(self).graph().history().last().moved_after,
 //@END
 //@CONTRACT fp_loop
             invariant
@@ -209,6 +230,7 @@ impl<K, V> RecursiveContext<K, V> where K: Hash + Eq + Debug + Clone, V: Debug +
                 (dfn.index as int) < self.graph().nodes().len(),
                 (depth.depth as int) < self.stk().flags().len(),
                 dfn.index < usize::MAX,
+                self.graph().nodes()[dfn.index as int].goal == old(self).graph().nodes()[dfn.index as int].goal,
 //@END
 
 } // verus!
